@@ -126,11 +126,9 @@ func ruleRelationalOrder(c *Ctx) {
 	r2 := s.Run(Query{Start: project, Target: filter})
 	c.Floor(rule, s.Name, "projection sites", r2.StartSites, 2)
 	c.reportHits(rule, s, "filter-before-projection", r2, "the WHERE filter is never applied after projection/aliasing", "the WHERE filter runs after projection: predicates on projected-away columns are lost")
-	// R20.2 errors of the relational steps
-	const r2id = "R20.2"
-	c.checkErrorsNotDropped(r2id, []string{"(*utils/io.ColumnSeries).RestrictLength", "(*utils/io.ColumnSeries).RestrictViaBitmap", "(*utils/io.ColumnSeries).Project", "(*utils/io.ColumnSeries).Rename"},
-		func(f *Func) bool { return f.PkgShort() == "sqlparser" }, 5,
-		"a failed restriction/projection leaves the result unrestricted while the statement reports success", false)
+	// R20.2 (errors of RestrictLength/RestrictViaBitmap/Project discarded) is not claimed: those
+	// calls cannot fail for any column a bucket can hold (every column is a slice, projected
+	// names were checked just before), so no failing input exists (DESIGN.md §7).
 	// R20.3 INSERT writes what was selected
 	const r3 = "R20.3"
 	if is := c.S(r3, "(*sqlparser.InsertIntoStatement).Materialize"); is != nil {
